@@ -402,6 +402,9 @@ func (o *Obligation) Script(produceModels bool) string {
 		b.WriteString(")\n")
 	}
 	b.WriteString(o.Extra)
+	if strings.Contains(b.String(), "(nlmul ") {
+		b.WriteString(nlmulAxiom)
+	}
 	b.WriteString("(check-sat)\n")
 	return b.String()
 }
